@@ -2406,9 +2406,8 @@ def matter_stream(chk: C.Check, pristine: "Pristine", r: Any, rounds: int) -> in
 # Caching loaders seen from several callers: a loader shared by two Environments with different
 # options, Template objects held while other callers load the same name, the documentation's
 # tag-dispatching loader under the caching mixin, a CachingDictLoader whose dictionary is edited.
-# Every call must equal the same call on freshly built objects.  Differences that are exactly a
-# recorded finding go under its signature (KNOWN-FINDING while it is open, nothing once it is
-# fixed); anything else is a violation.
+# Every call must equal the same call on freshly built objects.  Differences that are exactly an
+# OPEN recorded finding go under its signature; anything else is a violation.
 
 
 def _snippets_loader(fixed: bool) -> type:
@@ -2524,7 +2523,7 @@ def round8_stream(chk: C.Check, r: Any, rounds: int) -> dict[str, int]:
                         got = _r8_call(loop, envs[i], name, is_async, x="<i>")
                         want = _r8_call(loop, mk_env(i, mk_loader()), name, False, x="<i>")
                         check(f"{kind} shared by two Environments",
-                              "shared-caching-loader-serves-another-environments-template" if kind.startswith("Caching") else None,
+                              None,      # strict for every kind since /repo 275e3ac (finding 1 fixed)
                               got, want, {"call": f"environment {i}: get_template({name!r}).render(x='<i>')", "async": is_async,
                                           "loader": kind, "sources": src,
                                           "environments": "0: plain, g=<G0>, shout appends '!'; 1: auto_escape, g=<G1>, shout upper-cases"})
@@ -2589,6 +2588,99 @@ def round8_stream(chk: C.Check, r: Any, rounds: int) -> dict[str, int]:
         return counts
     finally:
         loop.close()
+
+
+# ---------------------------------------------------------------- every loader kind, the same names again and again
+
+
+def repeat_stream(chk: C.Check, r: Any, rounds: int) -> int:
+    """Every built-in loader kind over SEVERAL search locations (three directories /
+    three package paths / three delegates) with shadowed names: each name is
+    loaded again and again through get_template(_async), include, render and
+    extends on one Environment, and every call equals the same call on freshly
+    built loader objects (first load right, later loads of the same name right,
+    misses stay TemplateNotFoundError)."""
+    import importlib
+
+    import liquid2
+
+    n = 0
+    loop = asyncio.new_event_loop()
+    root = _scratch()
+    pkg = "c09pkg_%d_%d" % (os.getpid(), r.randrange(10**6))
+    try:
+        layers = [
+            {"only0": "only0@0", "both": "both@0", "page": "page@0[{% include 'both' %}|{% render 'only2' %}|{% include 'mid' %}]"},
+            {"both": "both@1", "mid": "mid@1{% render 'both' %}", "lay": "lay@1<{% block k %}k1{% endblock %}>"},
+            {"both": "both@2", "mid": "mid@2", "only2": "only2@2", "lay": "lay@2<{% block k %}k2{% endblock %}>",
+             "kid": "{% extends 'lay' %}{% block k %}kid{{ block.super }}{% include 'both' %}{% endblock %}"},
+        ]
+        sub = ["site", "theme", "base"]
+        os.makedirs(os.path.join(root, pkg))
+        open(os.path.join(root, pkg, "__init__.py"), "w").close()
+        for d, files in zip(sub, layers):
+            os.mkdir(os.path.join(root, d))
+            os.mkdir(os.path.join(root, pkg, d))
+            for where in (os.path.join(root, d), os.path.join(root, pkg, d)):
+                _write_tree(where, {k + ".liquid": v for k, v in files.items()}, 0)
+        sys.path.insert(0, root)
+        importlib.invalidate_caches()
+        dirs = [os.path.join(root, d) for d in sub]
+        merged: dict[str, str] = {}
+        for files in reversed(layers):
+            merged.update(files)
+
+        def mk(kind: str) -> Any:
+            if kind == "DictLoader":
+                return liquid2.DictLoader(dict(merged))
+            if kind == "CachingDictLoader":
+                return liquid2.CachingDictLoader(dict(merged))
+            if kind == "FileSystemLoader":
+                return liquid2.FileSystemLoader(dirs, ext=".liquid")
+            if kind == "CachingFileSystemLoader":
+                return liquid2.CachingFileSystemLoader(dirs, ext=".liquid")
+            if kind == "ChoiceLoader":
+                return liquid2.ChoiceLoader([liquid2.DictLoader(dict(f)) for f in layers])
+            if kind == "CachingChoiceLoader":
+                return liquid2.CachingChoiceLoader([liquid2.DictLoader(dict(f)) for f in layers])
+            if kind == "PackageLoader[list]":
+                return liquid2.PackageLoader(pkg, package_path=list(sub))
+            if kind == "PackageLoader[generator]":
+                return liquid2.PackageLoader(pkg, package_path=(x for x in sub))
+            if kind == "PackageLoader[one path]":
+                return liquid2.PackageLoader(pkg, package_path="base")
+            if kind == "ChoiceLoader[PackageLoader, DictLoader]":
+                return liquid2.ChoiceLoader([liquid2.PackageLoader(pkg, package_path=sub[:2]), liquid2.DictLoader(dict(layers[2]))])
+            raise ValueError(kind)
+
+        kinds = ["DictLoader", "CachingDictLoader", "FileSystemLoader", "CachingFileSystemLoader", "ChoiceLoader",
+                 "CachingChoiceLoader", "PackageLoader[list]", "PackageLoader[generator]", "PackageLoader[one path]",
+                 "ChoiceLoader[PackageLoader, DictLoader]"]
+        names = ["both", "only0", "only2", "mid", "page", "kid", "lay", "missing"]
+        for _ in range(rounds):
+            for kind in kinds:
+                env = liquid2.Environment(loader=mk(kind))
+                order = names * 3
+                r.shuffle(order)
+                for name in ["both", "both", "both"] + order:
+                    is_async = r.random() < 0.4
+                    got = _r8_call(loop, env, name, is_async)
+                    want = _r8_call(loop, liquid2.Environment(loader=mk(kind)), name, False)
+                    n += 1
+                    if got != want:
+                        chk.finding("repeat-load:" + kind.split("[")[0],
+                                    f"{kind}: get_template({name!r}).render() on a loader that has served other requests gives {got}; "
+                                    f"a freshly built loader gives {want}",
+                                    {"loader": kind, "template": name, "async": is_async, "layers_in_priority_order": layers,
+                                     "shared": got, "fresh": want, "how": "harness/c09.py repeat_stream"})
+        return n
+    finally:
+        loop.close()
+        if root in sys.path:
+            sys.path.remove(root)
+        for m in [m for m in sys.modules if m == pkg or m.startswith(pkg + ".")]:
+            del sys.modules[m]
+        shutil.rmtree(root, ignore_errors=True)
 
 
 # ---------------------------------------------------------------- classification
@@ -2882,6 +2974,7 @@ def _main(chk: C.Check, pristine: Pristine) -> None:
     r8 = round8_stream(chk, r, 3 if thorough else 1)
     dist["round8-calls"] = r8["calls"]
     dist["round8-differences-under-a-recorded-finding"] = r8["differences-under-a-recorded-finding"]
+    dist["repeat-load-calls"] = repeat_stream(chk, r, 2 if thorough else 1)
     n_matter = matter_stream(chk, pristine, r, 2 if thorough else 1)
     n_pristine += n_matter
     dist["matter-renders"] = n_matter
